@@ -15,6 +15,7 @@ from bfsa.terms import C, NONE, Term, cval, is_const, mk, show, subterms
 
 from rules import adapter, bf3
 from rules.bf3 import BF3, _flag_frame, _self_attr
+from rules import stackrt
 
 LEVEL = "other"
 BEC2 = "bec2format.bec2file"
@@ -243,6 +244,51 @@ def secrecy_taint(prog, chk, pid):
         chk.require(ok, P("no-secret-in-comments"), q, "write_bf3_format(file, self.bf3file.comments, self.to_binary(...))", "%s:%d" % (fi.file, fi.lineno), "only the comments mapping and the serialised binary are written", "text writer receives something other than the comments mapping and to_binary()")
 
 
+def stack_component_rules(prog, chk, pid, tier):
+    """component encryption through the real stack for enumerated content lengths (every length mod 16), symbolic content and key"""
+    from bfsa.exprs import sbytes
+    from rules import stackrt as R
+
+    P = lambda s: "%s.%s" % (pid, s)
+    BF3Q = "bec2format.bf3file"
+    stk = R.Stack(prog)
+    sk = mk("param", "sk")
+    fg = prog.method(BF3Q + ".Bf3Component", "get_raw_data")
+    where = "%s:%d" % (fg.file, fg.lineno)
+    src = ("def drv(sk, blob, n):\n    c = Bf3Component({}, blob, None, True)\n    raw = c.get_raw_data(sk)\n    back = Bf3Component.from_encrypted_raw_data({}, raw, n, sk)\n"
+           "    return (raw, back.blob, back.actual_len, back.encrypt_by_session_key, c.actual_len)\n")
+    lengths = list(range(1, 50)) + [63, 64, 65, 127, 128, 129, 255, 256]
+    if tier == "thorough":
+        lengths = list(range(1, 300)) + [511, 512, 513, 1023, 1024, 1025]
+    bad_ct = bad_rt = None
+    for L in lengths:
+        blob = R.syms("b", L)
+        ex, res = stk.run(BF3Q, src, {"sk": sk, "blob": sbytes(blob), "n": C(L)})
+        if res.dead or res.ret is None or unsnap(res.ret).op != "tuple":
+            bad_ct = bad_ct or (L, "raises")
+            break
+        raw, back, alen, flag, alen0 = unsnap(res.ret).args[0]
+        rb = R.flat(ex, res, raw)
+        plain = R.cbc_plain_blocks(rb, sk) if rb is not None else None
+        want = blob + [C(0)] * (-L % 16)
+        if plain is None or len(plain) != len(want) or any(a is not b for a, b in zip(plain, want)):
+            bad_ct = bad_ct or (L, "stored bytes are not AES-128-CBC(zero IV, session key) of the content zero-padded to %d bytes" % len(want))
+        bb = R.flat(ex, res, back)
+        if bb is None or len(bb) < L or any(a is not b for a, b in zip(bb[:L], blob)) or any(not (is_const(x) and cval(x) == 0) for x in bb[L:]) or not (is_const(alen) and cval(alen) == L) or not (is_const(flag) and cval(flag) is True) or not (is_const(alen0) and cval(alen0) == L):
+            bad_rt = bad_rt or (L, "read-back content / declared length / encryption flag differ")
+    chk.require(bad_ct is None, P("stack-ciphertext-only"), fg.qualname, "%d content lengths (all residues mod 16), symbolic content and session key" % len(lengths), where,
+                "the stored bytes are exactly CBC_sessionkey(zero IV) of the content zero-padded to a whole number of blocks (recovered from the ciphertext terms through the registered adapter and pyaes)",
+                "content length %s: %s" % bad_ct if bad_ct else "")
+    fr = prog.method(BF3Q + ".Bf3Component", "from_encrypted_raw_data")
+    chk.require(bad_rt is None, P("stack-read-back"), fr.qualname, "from_encrypted_raw_data(get_raw_data(...)) for %d content lengths" % len(lengths), "%s:%d" % (fr.file, fr.lineno),
+                "decrypting the stored bytes with the session key gives the content followed only by zero bytes, with the declared length and the encrypt-on-write flag kept", "content length %s: %s" % bad_rt if bad_rt else "")
+    # a component not marked for encryption is stored as is
+    ex, res = stk.run(BF3Q, "def drv(sk, blob):\n    return Bf3Component({}, blob).get_raw_data(sk)\n", {"sk": sk, "blob": sbytes(R.syms("b", 21))})
+    okp = not res.dead and res.ret is not None and unsnap(res.ret).op == "sbytes" and len(unsnap(res.ret).args[0]) == 21
+    chk.require(okp, P("stack-plain-unchanged"), fg.qualname, "unencrypted component, 21 bytes", where, "a component not marked for encryption is stored byte for byte", "plain component is not stored unchanged")
+    chk.info["stack_scenarios"] = stk.runs
+
+
 def run(prog, chk, tier):
     chk.explanation = ("get_raw_data's encryption arm must return create_AES128(session_key).encrypt(pad(self.blob)) and the blob may reach the stored bytes only through "
                        "that call; set_config builds its component flagged for encryption with the documented tags; the reader's ENC comparison is type consistent and equal "
@@ -257,4 +303,5 @@ def run(prog, chk, tier):
     no_plaintext_fallback(prog, chk, "C06")
     secrecy_taint(prog, chk, "C06")
     adapter.adapter_rules(prog, chk, "C06", want={"encrypt", "decrypt", "fresh-mode"})
+    stackrt.guarded(chk, "C06.stack-component", stack_component_rules, prog, chk, "C06", tier)
     chk.assume("AES-128-CBC itself (block function, modes) is decided under C16; MAC and SHA-256 outputs do not reveal their inputs")
